@@ -319,8 +319,8 @@ func (kr *KeyRegistry) LatestDataKey() (*pb.DataKey, error) {
 	validKey := func() (*pb.DataKey, bool) {
 		// Time difference from the last generated time.
 		diff := time.Since(time.Unix(kr.lastCreated, 0))
-		if diff < kr.opt.EncryptionKeyRotationDuration {
-			return kr.dataKeys[kr.nextKeyID], true
+		if dk, ok := kr.dataKeys[kr.nextKeyID]; ok && diff < kr.opt.EncryptionKeyRotationDuration {
+			return dk, true
 		}
 		return nil, false
 	}
